@@ -997,17 +997,26 @@ func (rn *RNode) UnmarshalJSON(b []byte) error {
 // DeAnchor inflates all YAML aliases with their anchor values.
 // All YAML anchor data is permanently removed (feel free to call Copy first).
 func (rn *RNode) DeAnchor() (err error) {
-	rn.value, err = deAnchor(rn.value)
+	rn.value, err = deAnchor(rn.value, nil)
 	return
 }
 
 // deAnchor removes all AliasNodes from the yaml.Node's tree, replacing
 // them with what they point to.  All Anchor fields (these are used to mark
 // anchor definitions) are cleared.
-func deAnchor(yn *yaml.Node) (res *yaml.Node, err error) {
+//
+// open holds the nodes whose expansion is in progress: an alias that leads
+// back to one of them (e.g. `a: &x {b: *x}`) cannot be expanded.
+func deAnchor(yn *yaml.Node, open []*yaml.Node) (res *yaml.Node, err error) {
 	if yn == nil {
 		return nil, nil
 	}
+	for _, o := range open {
+		if o == yn {
+			return nil, fmt.Errorf("an alias refers to a node that contains it")
+		}
+	}
+	open = append(open, yn)
 	if yn.Anchor != "" {
 		// This node defines an anchor. Clear the field so that it
 		// doesn't show up when marshalling.
@@ -1022,7 +1031,7 @@ func deAnchor(yn *yaml.Node) (res *yaml.Node, err error) {
 	case yaml.ScalarNode:
 		return yn, nil
 	case yaml.AliasNode:
-		result, err := deAnchor(yn.Alias)
+		result, err := deAnchor(yn.Alias, open)
 		if err != nil {
 			return nil, err
 		}
@@ -1032,6 +1041,15 @@ func deAnchor(yn *yaml.Node) (res *yaml.Node, err error) {
 		if err != nil {
 			return nil, err
 		}
+		for _, m := range toMerge {
+			for _, o := range open {
+				if o == m {
+					return nil, fmt.Errorf("a merge key refers to a mapping that contains it")
+				}
+			}
+		}
+		// what is merged in is expanded below as part of this mapping
+		open = append(open, toMerge...)
 		err = mergeAll(yn, toMerge)
 		if err != nil {
 			return nil, err
@@ -1039,7 +1057,7 @@ func deAnchor(yn *yaml.Node) (res *yaml.Node, err error) {
 		fallthrough
 	case yaml.DocumentNode, yaml.SequenceNode:
 		for i := range yn.Content {
-			yn.Content[i], err = deAnchor(yn.Content[i])
+			yn.Content[i], err = deAnchor(yn.Content[i], open)
 			if err != nil {
 				return nil, err
 			}
